@@ -31,6 +31,36 @@ def _pins(ctx):
     """linear equalities of the path condition turned into substitutions  var := expr.
     Real variables are eliminated in favour of integer ones (so integer periodicity applies)."""
     pins = []
+    # floor atoms  k = floor(a*v + b)  with v a real variable:  v := (k + f - b)/a  with a fresh fraction
+    # f in [0,1]; exposes integer periodicity of exp(i*pi*h*v) and leaves a small-range real atom f
+    for key, katom in list(ctx.atoms.items()):
+        if key[0] != 'floor' or ('frac', key) in ctx.atoms and ctx.atoms[('frac', key)] is None:
+            continue
+        terms = dict(key[1])
+        lin = [(m, c) for (m, a), c in terms.items() if m and not a]
+        if len(lin) != 1 or any(a for (m, a) in terms if a) or len(terms) > 2:
+            ctx.atoms[('frac', key)] = None
+            continue
+        (mono, co) = lin[0]
+        if len(mono) != 1 or mono[0][1] != 1 or co.imag != 0 or co.real == 0:
+            ctx.atoms[('frac', key)] = None
+            continue
+        v = mono[0][0]
+        if ctx.vars.get(v, {}).get('kind') != 'real' or any(v == n for n, _ in pins):
+            continue
+        b = terms.get(((), ()), 0j)
+        if b.imag != 0:
+            continue
+        fk = ('frac', key)
+        if fk not in ctx.atoms:
+            fname = ctx.fresh('fr')
+            ctx.vars[fname] = {'kind': 'real', 'lo': 0.0, 'hi': 1.0}
+            ctx.atoms[fk] = fname
+        fname = ctx.atoms[fk]
+        kname = str(katom.e)
+        expr = (SNum.var(kname) + SNum.var(fname) - b.real) * (1.0 / co.real)
+        pins.append((v, expr))
+    ctx._frac_defs = [('cmp', 'eq', SNum.var(v) - e) for v, e in pins]
     for c in list(ctx.pc) + list(ctx.atom_defs):
         if not (isinstance(c, tuple) and c[0] == 'cmp' and c[1] == 'eq'):
             continue
@@ -208,17 +238,27 @@ def check_close(ctx, a, b, tol, label):
     uw = {}
     viol = []
     T = rv(tol)
+    bcache = {}
+    n_slack = 0
     for i, d in diffs:
         re, im = [], []
+        slack = 0.0
         for (mono, ang), co in d.t.items():
             key = (mono, ang)
+            if key not in bcache:
+                bnd = _mono_bound(ctx, mono)
+                bcache[key] = None if bnd is None else max(abs(bnd[0]), abs(bnd[1]))
+            B = bcache[key]
+            # float-rounding residue: |coef|*bound <= 1e-10 goes into one interval slack per entry
+            if B is not None and abs(co) * B <= 1e-10:
+                slack += abs(co) * B
+                continue
             if key not in uw:
                 n = len(uw)
                 bnd = _mono_bound(ctx, mono)
                 if ang:
                     u, w = z3.Real(f'u{n}'), z3.Real(f'w{n}')
                     if bnd is not None:
-                        B = max(abs(bnd[0]), abs(bnd[1]))
                         s.add(u >= rv(-B), u <= rv(B), w >= rv(-B), w <= rv(B))
                     uw[key] = (u, w)
                 else:
@@ -237,6 +277,13 @@ def check_close(ctx, a, b, tol, label):
             if ci:
                 re.append(rv(-ci) * w)
                 im.append(rv(ci) * u)
+        if slack:
+            n_slack += 1
+            er, ei = z3.Real(f'er{i}'), z3.Real(f'ei{i}')
+            S = rv(slack)
+            s.add(er >= -S, er <= S, ei >= -S, ei <= S)
+            re.append(er)
+            im.append(ei)
         zre = z3.Sum(re) if re else z3.RealVal(0)
         zim = z3.Sum(im) if im else z3.RealVal(0)
         viol.append(z3.Or(zre > T, zre < -T, zim > T, zim < -T))
@@ -294,7 +341,7 @@ def _subst_cond(c, pins):
 def _pc_conds(ctx, pins):
     """path condition + atom definitions; conditions other than the pin equalities themselves are
     rewritten with the pins so that angle atoms of pinned variables coincide"""
-    out = []
+    out = list(getattr(ctx, '_frac_defs', []))
     for c in list(ctx.pc) + list(ctx.atom_defs):
         out.append(c)
         c2 = _subst_cond(c, pins)
@@ -321,6 +368,8 @@ def _query(ctx, mode, L, items, tol, sn, pcs=None):
     for c in (pcs if pcs is not None else list(ctx.pc) + list(ctx.atom_defs)):
         s.add(enc.cond(c))
     s.add(_viol_formula(enc, items, tol))
+    for lem in enc.lipschitz_lemmas():
+        s.add(lem)
     for sc in enc.side:
         s.add(sc)
     t0 = time.time()
